@@ -1097,9 +1097,16 @@ class Authenticated(BaseClientHandler):
         # Build a set of all returned folder names so we can verify
         # \HasChildren / \HasNoChildren correctness.
         #
+        # NOTE: A mailbox has children if *any* mailbox lies below it, not
+        #       only one that happens to match the same pattern (`LIST "" %`
+        #       returns the top level only).
+        #
         all_names = {name for name, _, _ in results}
+        async for row in self.server.db.query("SELECT name FROM mailboxes"):
+            all_names.add(row[0])
         for mbox_name, attributes, child_info in results:
-            has_children = any(n.startswith(mbox_name + "/") for n in all_names)
+            prefix = "inbox/" if mbox_name == "INBOX" else f"{mbox_name}/"
+            has_children = any(n.startswith(prefix) for n in all_names)
             if has_children:
                 attributes.discard(r"\HasNoChildren")
                 attributes.add(r"\HasChildren")
